@@ -7,6 +7,7 @@ from .common import TRUSTED, Ctx
 
 def check(rep):
     ctx = Ctx(rep)
+    ctx.shape_options.add("overflow")      # decimals too large for a float (the lexer's float() gives inf)
     if rep.tier == "thorough":
         LR.validate_engine(ctx)
     LR.rule_all_munch(ctx, rid="C07.KEYWORD-MUNCH")
